@@ -140,7 +140,7 @@ func (c *Ctx) addArgsSkeleton(r *Report, rule string) {
 	pf := c.Field("parseState", "positional")
 	nAdv := 0
 	for _, s := range c.storesTo(pf) {
-		if !c.actsFor(s.Fn, aa) {
+		if !c.actsAlsoFor(s.Fn, aa) {
 			continue
 		}
 		nAdv++
